@@ -117,5 +117,14 @@ pub fn scenarios(tier: Tier) -> Vec<Scenario> {
             add(2, 2, 2, 1, pats[3].1.as_ref(), "p0K", 16, 2);
         }
     }
+    // a late-comer creates (and drops) a state iterator while stop() is under way with a backlog:
+    // the subscribers registered for the whole run must not notice
+    for (np, k, bound) in if tier == Tier::Quick { vec![(1u32, 2u32, 2u32)] } else { vec![(1, 2, 3), (2, 1, 3), (2, 2, 2)] } {
+        let mut prog = producers(Program::new(StoreSpec::new(1, 2, Pol::Block)), np, k, |_, id| Op::Dispatch(Act::new(id)));
+        prog = prog.thread("late-iter", vec![Op::IterOpen(40), Op::IterClose(40)]);
+        prog = prog.main(vec![Op::AddSub { id: 1, gated: false, reads: false }, Op::AddSub { id: 2, gated: false, reads: false }, Op::SpawnAll, Op::JoinThese(vec!["p0", "p1"]), Op::Stop, Op::JoinAll]);
+        let subs = vec![1u32, 2];
+        v.push(scn(format!("C03/late-iter/P{}k{}", np, k), prog, bound, opts_elide(), move |r, _| check(r, &subs)));
+    }
     v
 }
